@@ -31,6 +31,11 @@ def modes : List Mode := []
   ++ [Drv.CratesV1.mode]
   ++ [Drv.CratesV1Oracle.mode]
   ++ [Drv.CratesV1Explore.mode]
+  ++ [Drv.T2.table]
+
+/-- Stateful groups, selected by a first line `#mode <name>`. -/
+def modes : List Mode := []
+  ++ [Drv.T2.mode]
 
 def dispatch (line : String) : String :=
   match tokens line with
